@@ -466,7 +466,115 @@ def gen_grid_defaults():
     return write_if_changed("GridDefaults.lean", "\n".join(lines) + "\n")
 
 
-GENERATORS = [gen_gridops, gen_axis, gen_grid_defaults]
+
+# --------------------------------------------------------------------------
+# grid_ufunc.py -> Gen/Regex.lean : regular-expression strings, option lists
+# --------------------------------------------------------------------------
+
+def _eval_strexpr(node, env):
+    """evaluate module-level string constants built from literals and f-strings"""
+    if isinstance(node, ast.Constant) and isinstance(node.value, str):
+        return node.value
+    if isinstance(node, ast.JoinedStr):
+        out = ""
+        for v in node.values:
+            if isinstance(v, ast.Constant):
+                out += v.value
+            elif isinstance(v, ast.FormattedValue) and isinstance(v.value, ast.Name) \
+                    and v.value.id in env and v.conversion == -1 and v.format_spec is None:
+                out += env[v.value.id]
+            else:
+                return None
+        return out
+    return None
+
+
+def lean_chars(s):
+    def ch(c):
+        if c == "'":
+            return "'\\''"
+        if c == "\\":
+            return "'\\\\'"
+        if c == "\n":
+            return "'\\n'"
+        return "'" + c + "'"
+    return "[" + ", ".join(ch(c) for c in s) + "]"
+
+
+def gen_regex():
+    text = src("grid_ufunc.py")
+    tree = ast.parse(text)
+    env = {}
+    wanted = ["_AXIS_NAME", "_AXIS_POSITION", "_AXIS_NAME_POSITION_PAIR", "_AXIS_NAME_POSITION_PAIR_LIST",
+              "_ARGUMENT", "_ARGUMENT_LIST", "_SIGNATURE"]
+    for node in tree.body:
+        if isinstance(node, ast.Assign) and len(node.targets) == 1 and isinstance(node.targets[0], ast.Name):
+            v = _eval_strexpr(node.value, env)
+            if v is not None:
+                env[node.targets[0].id] = v
+    disallowed = literal(module_assign(tree, "DISALLOWED_OVERLAP_POSITIONS"))
+    # how the string parser tests the pattern: re.match / re.fullmatch
+    matcher = None
+    fn = find_func(tree, "_parse_signature_from_string")
+    for node in ast.walk(fn):
+        if isinstance(node, ast.Call) and isinstance(node.func, ast.Attribute) \
+                and isinstance(node.func.value, ast.Name) and node.func.value.id == "re" \
+                and node.args and isinstance(node.args[0], ast.Name) and node.args[0].id == "_SIGNATURE":
+            matcher = node.func.attr
+    # options stored by GridUFunc.__init__ (self.X = kwargs.pop("X", default)) and those
+    # read back in __call__ (kwargs.pop("X", self.X)) and forwarded to apply_as_grid_ufunc
+    stored, popped_call, forwarded = [], [], []
+    init = find_func(tree, "__init__", "GridUFunc")
+    call = find_func(tree, "__call__", "GridUFunc")
+    for node in ast.walk(init):
+        if isinstance(node, ast.Assign) and isinstance(node.targets[0], ast.Attribute) \
+                and isinstance(node.value, ast.Call) and isinstance(node.value.func, ast.Attribute) \
+                and node.value.func.attr == "pop" and node.value.args \
+                and isinstance(node.value.args[0], ast.Constant):
+            stored.append(node.value.args[0].value)
+    for node in ast.walk(call):
+        if isinstance(node, ast.Call) and isinstance(node.func, ast.Attribute) and node.func.attr == "pop" \
+                and isinstance(node.func.value, ast.Name) and node.func.value.id == "kwargs" \
+                and node.args and isinstance(node.args[0], ast.Constant):
+            popped_call.append(node.args[0].value)
+        if isinstance(node, ast.Call) and isinstance(node.func, ast.Name) and node.func.id == "apply_as_grid_ufunc":
+            for k in node.keywords:
+                if k.arg is not None:
+                    src_txt = ast.get_source_segment(text, k.value) or ""
+                    forwarded.append((k.arg, src_txt))
+    allowed = None
+    agu = find_func(tree, "as_grid_ufunc")
+    for node in ast.walk(agu):
+        if isinstance(node, ast.Assign) and isinstance(node.targets[0], ast.Name) \
+                and node.targets[0].id == "_allowedkwargs":
+            allowed = sorted(literal(node.value) or [])
+
+    lines = ["import XgcmModel.Model.Basic",
+             "/- GENERATED by tools/extract.py from xgcm/grid_ufunc.py — do not edit -/",
+             "namespace Xgcm.Gen", "open Xgcm", ""]
+    for w in wanted:
+        v = env.get(w)
+        nm = "re" + "".join(p.capitalize() for p in w.strip("_").lower().split("_"))
+        if v is None:
+            lines.append(f"def {nm} : Option (List Char) := none")
+        else:
+            lines.append(f"/-- {w} -/")
+            lines.append(f"def {nm} : Option (List Char) := some {lean_chars(v)}")
+    lines.append(f"def signatureMatcher : String := {lean_str(str(matcher))}")
+    lines.append("def disallowedOverlapPositions : List String := ["
+                 + ", ".join(lean_str(x) for x in (disallowed or [])) + "]")
+    lines.append("def ufuncStoredOptions : List String := [" + ", ".join(lean_str(x) for x in stored) + "]")
+    lines.append("def ufuncCallTimeOptions : List String := [" + ", ".join(lean_str(x) for x in popped_call) + "]")
+    lines.append("def ufuncForwarded : List (String × String) := ["
+                 + ", ".join(f"({lean_str(a)}, {lean_str(b)})" for a, b in forwarded) + "]")
+    lines.append("def decoratorAllowedKwargs : List String := ["
+                 + ", ".join(lean_str(x) for x in (allowed or [])) + "]")
+    lines.append("")
+    lines.append("end Xgcm.Gen")
+    return write_if_changed("Regex.lean", "\n".join(lines) + "\n")
+
+
+GENERATORS = [gen_gridops, gen_axis, gen_grid_defaults, gen_regex]
 
 
 def main():
